@@ -916,6 +916,12 @@ class Explorer:
                         continue
                     out.append((s2, atomv(('classattr', c.qualname, e.attr)), None))
                     continue
+            nti = self._nt_index(e.attr)
+            if nti is not None and (isinstance(b, TupleVal) or
+                                    (isinstance(ba, tuple) and ba and ba[0] in ('call', 'sub'))):
+                # a NamedTuple field read: component nti of the tuple
+                out.append((s2, self.read_sub(s2, b, RF.const(nti)), None))
+                continue
             getter = self.property_getter(s2.func, e)
             if getter is not None and self.want_inline(getter, s2):
                 out.extend(self.inline_call(getter, b, [], {}, s2, e))
@@ -923,6 +929,17 @@ class Explorer:
             fld = mangle(s2.func.cls.name if s2.func.cls else None, e.attr)
             out.append((s2, self.read_attr(s2, b, fld), None))
         return out
+
+    def _nt_index(self, attr: str) -> Optional[int]:
+        tab = getattr(self, '_nt_tab', None)
+        if tab is None:
+            tab = {}
+            for c in self.ix.classes.values():
+                for i, n in enumerate(c.namedtuple_fields or ()):
+                    tab.setdefault(n, set()).add(i)
+            self._nt_tab = tab
+        idx = tab.get(attr)
+        return next(iter(idx)) if idx and len(idx) == 1 else None
 
     def read_attr(self, s: State, b, fld):
         bk = key_of(b)
@@ -1204,6 +1221,17 @@ class Explorer:
             fa = fv.single_atom() if isinstance(fv, RF) else None
             if isinstance(fa, tuple) and len(fa) == 2 and fa[0] == 'func' and fa[1] in self.ix.funcs:
                 internal, news, exts = [self.ix.funcs[fa[1]]], [], set()
+            if isinstance(fa, tuple) and len(fa) == 4 and fa[0] == 'attr' and isinstance(fa[2], str) and recv is None \
+                    and any(isinstance(c, FuncInfo) and c.name == fa[2] for c in internal):
+                # a local bound to a bound method (insert = self.queue.Insert; insert(...)): the same call as
+                # self.queue.Insert(...)
+                recv = rf_of_key(fa[1])
+                name = fa[2]
+                internal = [c for c in internal if c.name == fa[2]]
+            if isinstance(fa, tuple) and len(fa) == 2 and fa[0] == 'attrgetter' and len(args) == 1 and not kwargs \
+                    and isinstance(args[0], RF):
+                # operator.attrgetter('f')(x) is x.f
+                return [(s, self.read_attr(s, args[0], fa[1]), None)]
         if len(internal) > 1 and self.self_cls is not None and isinstance(recv, RF) and s.frames:
             root_fn = s.frames[0][0]
             if root_fn.param_names and key_of(recv) == key_of(atomv(('var', root_fn.param_names[0]))):
@@ -1232,6 +1260,16 @@ class Explorer:
                            kwargs=kwargs, result=r, inlined=False, ext=True)
                     return [(s, r, None)]
         # ---- constructors
+        if news and not [c for c in internal if c.name != '__init__'] and \
+                self.ix.classes[news[0][1]].namedtuple_fields is not None:
+            # NamedTuple(a, b): the tuple (a, b); its field names index the components
+            flds = self.ix.classes[news[0][1]].namedtuple_fields
+            items = list(args) + [None] * (len(flds) - len(args))
+            for k, v in kwargs.items():
+                if k in flds:
+                    items[flds.index(k)] = v
+            if all(x is not None for x in items):
+                return [(s, TupleVal(items[:len(flds)]), None)]
         if news and not [c for c in internal if c.name != '__init__']:
             cls = self.ix.classes[news[0][1]]
             occ = s.next_occ(('fresh', cls.name))
@@ -1338,6 +1376,14 @@ class Explorer:
             return atomv(('len', key_of(args[0]), s.fver.get('[]', 0)))
         if dotted == 'builtins.print':
             return atomv(NONE)
+        if dotted == 'builtins.getattr' and n == 2 and isinstance(args[0], RF) and isinstance(args[1], RF):
+            sa = args[1].single_atom()
+            if isinstance(sa, tuple) and len(sa) == 2 and sa[0] == 'str' and not sa[1].startswith('__'):
+                return self.read_attr(s, args[0], sa[1])          # getattr(x, 'f') is x.f
+        if dotted == 'operator.attrgetter' and n == 1 and isinstance(args[0], RF):
+            sa = args[0].single_atom()
+            if isinstance(sa, tuple) and len(sa) == 2 and sa[0] == 'str' and '.' not in sa[1]:
+                return atomv(('attrgetter', sa[1]))
         if dotted == 'builtins.bool' and n == 1 and key_of(args[0]) in (TRUE, FALSE):
             return args[0]          # bool() of a decided condition
         if dotted in ALLOC_EXT:
